@@ -268,7 +268,7 @@ uint32_t qhashmurmur3_32(const void *data, size_t nbytes) {
     const uint32_t c2 = 0x1b873593;
 
     const int nblocks = nbytes / 4;
-    const uint32_t *blocks = (const uint32_t *) (data);
+    const uint8_t *blocks = (const uint8_t *) (data);
     const uint8_t *tail = (const uint8_t *) (data + (nblocks * 4));
 
     uint32_t h = 0;
@@ -276,7 +276,9 @@ uint32_t qhashmurmur3_32(const void *data, size_t nbytes) {
     int i;
     uint32_t k;
     for (i = 0; i < nblocks; i++) {
-        k = blocks[i];
+        // the data may start at any address: read the block bytewise
+        // (compiles to the same single load where that is allowed)
+        memcpy(&k, blocks + (i * 4), sizeof(k));
 
         k *= c1;
         k = (k << 15) | (k >> (32 - 15));
